@@ -285,6 +285,23 @@ def run_suite(pid, suite, tier, seed, rundir, replay=None, cone_ok=True):
     res["summary"] = json.load(open(sp))
     res["summary"]["shards"] = res["summary"].get("shards") or []
     if cone_ok and res["summary"].get("shards"):
+        # the modules the case files import (the model and its check_case) are rebuilt from the current sources
+        need = set()
+        try:
+            head = open(os.path.join(sdir, res["summary"]["shards"][0] + ".v")).read(4000)
+            for m in re.finditer(r"From FL Require (?:Import|Export) ([\w. ]+?)\.\s", head):
+                for mod in m.group(1).split():
+                    need.add("theories/" + mod.replace(".", "/") + ".vo")
+            for m in re.finditer(r"Require (?:Import|Export) ((?:FL\.[\w.]+\s*)+)\.\s", head):
+                for mod in m.group(1).split():
+                    need.add("theories/" + mod[3:].replace(".", "/") + ".vo")
+        except OSError:
+            pass
+        if need:
+            okc, outc = coq_build(sorted(need))
+            if not okc:
+                res["case_errors"] = [("model build", outc[-2000:])]
+                return res
         bad, errs = run_cases(sdir, res["summary"]["shards"])
         for (s, i) in bad:
             inputs = json.load(open(os.path.join(sdir, s + ".inputs.json")))
